@@ -30,6 +30,28 @@ for r in res["results"]:
     out.append("| %s | %s | %s |" % (r["id"], summ, ", ".join(r["rules"]) if r["fired"] else "**not caught** (value-level; see 6.5)"))
 out.append("")
 out.append("Caught %d of %d." % (caught, len(res["results"])))
+try:
+    ben = json.load(open(os.path.join(V, "seeded", "BENIGN.json")))
+    rows = ben.get("refactorings", [])
+    out.append("")
+    out.append("#### Behaviour-preserving refactorings (independent sub-agents; pinned suite unchanged with each) and the checks' verdicts\n")
+    out.append("| Refactoring | What was rewritten | Verdict of all 20 checks |")
+    out.append("|---|---|---|")
+    silent = 0
+    for r in rows:
+        meta = {}
+        try:
+            meta = json.load(open(os.path.join(V, "seeded", "benign", r["id"], "meta.json")))
+        except Exception:
+            pass
+        sm = (meta.get("summary") or "").replace("|", "/").replace("\n", " ")[:170]
+        ok = not r.get("alarms")
+        silent += ok
+        out.append("| %s | %s | %s |" % (r["id"], sm, "silent" if ok else "**false alarm**: " + "; ".join(a[:80] for a in r["alarms"][:2])))
+    out.append("")
+    out.append("Silent on %d of %d." % (silent, len(rows)))
+except Exception as e:
+    out.append("(no benign results: %s)" % e)
 text = "\n".join(out)
 p = os.path.join(V, "DESIGN.md")
 s = open(p).read()
